@@ -83,8 +83,12 @@ class Verifier:
         I.frames.append(fr)
         env = Env()
         if self.outer is not None:
-            # inner function: free variables of the enclosing function come from the contract params too
-            pass
+            # inner function: free variables of the enclosing function come from the contract params too;
+            # its own name is bound so that recursion goes through its contract
+            outer_fr = Frame(c.target.rsplit(".", 1)[0], self.outer, self.module, self.ci)
+            clo = Closure(self.fn, env, outer_fr)
+            clo.decorators = []
+            env.vars[self.fn.name] = clo
         params = {}
         for name, tystr in c.params.items():
             params[name] = self.make_value(I, tystr, name)
@@ -125,8 +129,8 @@ class Verifier:
             pass
         post_env = Env(env)  # locals at the exit point are visible to clauses (use ifdef for path-local names)
         post_env.vars[c.result_name] = result
-        if c.trace_name:
-            post_env.vars[c.trace_name] = PyList(fr.trace) if not getattr(fr, "trace_sym", None) else fr.trace_sym
+        if fr.is_generator:
+            post_env.vars["trace"] = self.frame_trace(I, fr)
         vo = Obligation((self.c.name or self.c.target).split("inline_snapshot.", 1)[-1], "vacuity", "exit-reachable", [], list(I.ctx.pc), z3.BoolVal(False), self.path_id)
         self.vacuity_obligations.append(vo)
         if raised is not None:
@@ -164,6 +168,8 @@ class Verifier:
             return eval(tystr[1:], {"Ellipsis": Ellipsis})
         if tystr == "Opaque":
             return Opaque(hint)
+        if tystr == "unbound":
+            return _UNBOUND
         ty = parse_ty(tystr)
         v = fresh_value(I.ctx, ty, hint)
         if isinstance(v, SList):
@@ -396,9 +402,6 @@ class Verifier:
         if fr.is_generator and any(isinstance(n, (ast.Yield, ast.YieldFrom)) for n in ast.walk(st)):
             self.havoc_trace(I, fr)
 
-    def havoc_trace(self, I, fr):
-        raise Unsupported("yield inside a cut loop needs a trace model")
-
     # ------------------------------------------------------------------ classes
     def class_info(self, qual):
         try:
@@ -477,7 +480,48 @@ class Verifier:
         pass
 
     def on_stmt(self, I, st, env):
-        pass
+        """Statement-pattern hooks (DESIGN 2.2 'recognised idioms'); returns True when the hook executed the statement."""
+        if isinstance(st, ast.While) and isinstance(st.test, ast.Constant) and st.test.value is True:
+            return self._drain_idiom(I, st, env)
+        return False
+
+    def _drain_idiom(self, I, st, env):
+        """while True: try: L.append(next(it)) except StopIteration as ex: X = ex.value; break
+        == consume the generator completely: L += trace(it); X = return value(it)"""
+        if len(st.body) != 1 or not isinstance(st.body[0], ast.Try):
+            return False
+        tr = st.body[0]
+        if len(tr.body) != 1 or len(tr.handlers) != 1 or ast.unparse(tr.handlers[0].type) != "StopIteration":
+            return False
+        call = tr.body[0].value if isinstance(tr.body[0], ast.Expr) else None
+        if not (isinstance(call, ast.Call) and isinstance(call.func, ast.Attribute) and call.func.attr == "append"
+                and len(call.args) == 1 and isinstance(call.args[0], ast.Call) and ast.unparse(call.args[0].func) == "next"):
+            return False
+        h = tr.handlers[0]
+        if not (len(h.body) == 2 and isinstance(h.body[0], ast.Assign) and isinstance(h.body[1], ast.Break)
+                and ast.unparse(h.body[0].value) == f"{h.name}.value"):
+            return False
+        it = I.eval(call.args[0].args[0], env)
+        gen = it.srcs[0] if isinstance(it, Iter) else it
+        if not (isinstance(gen, Obj) and gen.cls == "generator"):
+            raise Unsupported("drain idiom over a non-generator")
+        lst = I.eval(call.func.value, env)
+        if not (isinstance(lst, PyList) and not lst.items):
+            raise Unsupported("drain idiom into a non-empty list")
+        tr_list = gen.fields["trace"].copy()
+        tr_list.immutable = False
+        I.assign(ast.parse(ast.unparse(call.func.value), mode="eval").body, tr_list, env) if False else None
+        # rebind the drained list at its owner (attribute or name)
+        tgt = call.func.value
+        if isinstance(tgt, ast.Attribute):
+            I.setattr(I.eval(tgt.value, env), tgt.attr, tr_list, tgt)
+        elif isinstance(tgt, ast.Name):
+            env.set(tgt.id, tr_list)
+        else:
+            raise Unsupported("drain target")
+        I.assign(h.body[0].targets[0], gen.fields["value"], env)
+        self.idioms = getattr(self, "idioms", set()) | {"drain-generator"}
+        return True
 
     def hasattr_(self, I, v, a, node):
         if isinstance(v, Obj):
@@ -622,14 +666,19 @@ class Verifier:
         pass
 
     # ------------------------------------------------------------------ calls
-    def contract_for(self, qual):
+    def contract_for(self, qual, receiver=None):
         c = REGISTRY.get(qual)
         if c is not None:
             return c
-        for k, c in REGISTRY.items():
-            if c.target == qual and c.ghost.get("callee_default"):
+        cands = [c for c in REGISTRY.values() if c.target == qual and c.ghost.get("callee_default")]
+        if receiver is not None:
+            for c in cands:
+                if c.self_cls == receiver.cls:
+                    return c
+        for c in cands:
+            if c.self_cls is None or receiver is None:
                 return c
-        return None
+        return cands[0] if cands else None
 
     def callee_policy(self, I, qual, default=None):
         short = qual.rsplit(".", 1)[-1]
@@ -641,7 +690,7 @@ class Verifier:
             return "contract"
         if qual == self.c.target:
             return "contract"  # recursion uses the function's own contract
-        for k in (qual, qual.split("inline_snapshot.", 1)[-1]):
+        for k in (qual, qual.split("inline_snapshot.", 1)[-1], two):
             if k in self.default_policies:
                 return self.default_policies[k]
         return default
@@ -727,11 +776,52 @@ class Verifier:
         if hook is not None:
             return hook(I, m, "exit", sig, env)
 
+    def trace_ty(self, c=None):
+        t = (c or self.c).ghost.get("trace_ty") or self.default_policies.get("trace_ty")
+        return parse_ty(t) if t else None
+
+    def frame_trace(self, I, fr):
+        """The list of yielded events of a generator frame (symbolic list of encoded events)."""
+        if getattr(fr, "trace_sym", None) is None:
+            from .core import slist_of
+
+            ty = self.trace_ty(self.contract_of_frame(fr.qual) or self.c)
+            if ty is None:
+                raise Unsupported(f"generator {fr.qual} needs ghost trace_ty")
+            fr.trace_sym = slist_of(I.ctx, [], ty)
+        return fr.trace_sym
+
+    def encode_event(self, I, v):
+        enc = self.c.ghost.get("encode_event") or self.default_policies.get("encode_event")
+        return enc(I, v) if enc else v
+
     def on_yield(self, I, v, node):
-        I.frame.trace.append(v)
+        from .core import list_append
+
+        fr = I.frame
+        tr = self.frame_trace(I, fr)
+        list_append(I.ctx, tr, self.encode_event(I, v))
 
     def on_yield_from(self, I, n, env):
-        raise Unsupported("yield from")
+        from .core import list_concat
+
+        g = I.eval(n.value, env)
+        if isinstance(g, Iter):
+            g = g.srcs[0]
+        if not (isinstance(g, Obj) and g.cls == "generator"):
+            raise Unsupported(f"yield from {g!r}")
+        fr = I.frame
+        tr = self.frame_trace(I, fr)
+        cat = list_concat(I.ctx, tr, g.fields["trace"])
+        tr.arr, tr.n = cat.arr, cat.n
+        return g.fields["value"]
+
+    def havoc_trace(self, I, fr):
+        from .stmts import havoc_value
+
+        tr = self.frame_trace(I, fr)
+        nv = havoc_value(I, tr, "trace")
+        tr.arr, tr.n = nv.arr, nv.n
 
     # ------------------------------------------------------------------ contract application at a call site
     def apply_contract(self, I: Interp, c: Contract, args, kwargs, node, fnode=None, closure=None):
@@ -778,15 +868,52 @@ class Verifier:
                         I.ctx.assume(sub.clause_bool(I, env, expr))
                     raise RaiseSig(ex, info=[f"from contract of {callee}"])
             env.vars[c.result_name] = result
+            is_gen = fnode is not None and any(isinstance(x, (ast.Yield, ast.YieldFrom)) for x in _walk_own_fn(fnode))
+            gen_trace = None
+            if is_gen:
+                tty = self.trace_ty(c)
+                if tty is None:
+                    raise Unsupported(f"generator contract {c.target} needs ghost trace_ty")
+                gen_trace = fresh_value(I.ctx, parse_ty("List[" + tty.key + "]") if False else ListT(tty), f"{callee}_trace")
+                env.vars["trace"] = gen_trace
             sub = _SubVerifier(self, c)
             for label, expr in c.ensures.items():
                 I.ctx.assume(sub.clause_bool(I, env, expr))
+            if is_gen:
+                return Obj("generator", {"trace": gen_trace, "value": result})
             return result
         finally:
             I.old_env, I.old_map = saved_old
 
+    def _declared_type(self, c, path):
+        ft = c.ghost.get("frame_types", {})
+        if path in ft:
+            return ft[path]
+        parts = path.split(".")
+        spec = c.params.get(parts[0]) or self.contract_globals(c.target).get(parts[0])
+        for f in parts[1:]:
+            if not (isinstance(spec, str) and spec.startswith("@")):
+                return None
+            sh = c.shapes.get(spec[1:]) or self.shapes.get(spec[1:])
+            if sh is None:
+                return None
+            spec = sh.fields.get(f)
+        return spec
+
     def _havoc_frame_path(self, I, env, path, c):
         root = path.split(".", 1)[0]
+        decl = self._declared_type(c, path)
+        if isinstance(decl, str) and not decl.startswith(("@", "=")) and decl not in ("Opaque", "unbound"):
+            node = ast.parse(path, mode="eval").body
+            e2 = env
+            if not env.has(root):
+                e2 = Env(env)
+                e2.vars[root] = self.global_value(I, root)
+            base = I.eval(node.value, e2)
+            if isinstance(base, Obj):
+                nv = self.make_value(I, decl, path)
+                base.fields[node.attr] = nv
+                return
         if not env.has(root):
             # a global root
             g = self.global_value(I, root)
@@ -809,6 +936,12 @@ def _has_quantifier(e):
             return True
         stack.extend(x.children())
     return False
+
+
+def _walk_own_fn(fn):
+    from .interp import _walk_own
+
+    return _walk_own(fn)
 
 
 class _SubVerifier:
